@@ -137,6 +137,25 @@ def gen_cases(ctx):
                 l["swapStreams"] = True
         o = worlds.gen_opts(rng, allow=("verbose", "repeat", "j"))
         o["buffer"] = rng.random() < 0.8
+        if rng.random() < 0.35:
+            # the usual terminal: a strict UTF-8 sys.stdout (and a sys.stderr that escapes) - the captured bytes need
+            # not be decodable (tests write through .buffer)
+            o["_env"] = {"PYTHONIOENCODING": "utf-8"}
+            tok = [max([w_[1] for t_ in w["tests"] for p_ in cw.parts_of(t_) for w_ in p_["writes"]] + [0]) + 1]
+            for t in w["tests"]:
+                if "\udc80" in (t.get("label") or ""):
+                    t.pop("label")
+                if not t.get("doctest") and not t.get("ownstream") and rng.random() < 0.4:
+                    part = rng.choice([t["setUp"], t["body"]])
+                    part["writes"] = part["writes"] + [[False, tok[0]]]
+                    part["rawbytes"] = True
+                    tok[0] += 1
+        if o["buffer"] and rng.random() < 0.3:
+            # tests of code that embeds the runner: after writing something they run the runner in-process (--buffer too)
+            # on a tree of their own, then go on
+            for t in w["tests"]:
+                if not t.get("doctest") and not t.get("ownstream") and not t.get("rebind") and rng.random() < 0.35:
+                    t["body"]["nested"] = True
         if rng.random() < 0.25:
             o["xml"] = "xmlout"         # the XML wrapper hands the captured output on to the formatter
         if rng.random() < 0.3:
